@@ -220,7 +220,11 @@ func (gw *inclusiveGateway) NextAction(ctx context.Context, flow Flow) chan IAct
 	})
 
 	response := make(chan IAction, 1)
-	gw.mch <- nextActionMessage{response: response, flow: flow}
+	// the node's goroutine stops reading its inbox when the context is done
+	select {
+	case gw.mch <- nextActionMessage{response: response, flow: flow}:
+	case <-ctx.Done():
+	}
 	return response
 }
 
